@@ -4,6 +4,7 @@ import structcases
 import obs
 
 ID = "C05"
+ENV_RERUN = 40          # cases repeated from a cargo build-script environment (lib/runner.py with_build_env)
 REQUIRES = ["Agree", "StructSpec", "Truth"]
 THEOREM_REQUIRES = ["C05"]
 THEOREMS = ["C05_holds", "C05_holds_bool", "C05_check_sound"]
